@@ -96,7 +96,7 @@ fn gen_any_float_table<F: FloatT>(rng: &mut Rng, max_len: usize) -> (Vec<F>, &'s
 
 fn gen_normalization<F: FloatT>(rng: &mut Rng, v: &[F]) -> (Option<F>, &'static str) {
     let sum: F = v.iter().copied().sum();
-    match rng.below(12) {
+    match rng.below(14) {
         0 => (Some(F::from64(0.0)), "zero"),
         1 => (Some(F::from64(-1.0)), "negative"),
         2 => (Some(F::from64(f64::NAN)), "nan"),
@@ -105,6 +105,8 @@ fn gen_normalization<F: FloatT>(rng: &mut Rng, v: &[F]) -> (Option<F>, &'static 
         5 => (Some(sum * F::from64(0.999)), "slightly-too-small"),
         6 => (Some(sum * F::from64(1e6)), "much-too-large"),
         7 => (Some(sum), "exact"),
+        8 => (Some(F::from64(1.0)), "finite-constant-1"),
+        9 => (Some(F::from64(0.37 + 10.0 * rng.f64())), "finite-constant"),
         _ => (None, "none"),
     }
 }
